@@ -78,13 +78,13 @@ class Scenario:
         cfg["certificate"] = certs
         return cfg
 
-    def run(self, attempts=None, env=None, root_certs=()):
+    def run(self, attempts=None, env=None, root_certs=(), umask=None):
         self.world.write_config(self.config())
         e = dict(self.env)
         if env:
             e.update(env)
         self.tw.emit({"src": "drv", "ev": "DaemonStart", "tag": self.tag})
-        r = self.world.run(max_attempts=attempts or self.attempts, timeout=self.timeout, env=e, root_certs=root_certs)
+        r = self.world.run(max_attempts=attempts or self.attempts, timeout=self.timeout, env=e, root_certs=root_certs, umask=umask)
         self.tw.emit({"src": "drv", "ev": "DaemonEnd", "rc": r["rc"], "hung": r["hung"]})
         return r
 
